@@ -129,7 +129,8 @@ def generate(ctx):
                     if shape == "tuple":
                         return (k, k + 0.5)
                     if shape == "dict":
-                        return {"u": k, "v": f"s{k}"}
+                        # the same keys, built in another order for every other row: outputs are matched to columns by NAME
+                        return {"u": k, "v": f"s{k}"} if k % 2 == 0 else {"v": f"s{k}", "u": k}
                     if dotted_variant == 0:
                         return {"u": k, "out.a": np.arange(k % 3), "out.b": np.arange(k % 3) * 2.0}
                     # plain outputs whose names START like the nested output's name, interleaved with the dotted ones
@@ -249,6 +250,8 @@ def generate(ctx):
                                 oc.append(f"(ONest {cq_s(str(c_))} {cq_list(cq_s(f_) for f_ in col_.nest.fields)})")
                             else:
                                 oc.append(f"(OBase {cq_s(str(c_))})")
+                        if shape == "dict":
+                            oc.sort()       # plain outputs whose dicts were built in varying key order: the ORDER of the columns is pandas' business
                         obs_cols_t = f"(Some {cq_list(oc)})"
                 glue_t = (f"chk_reduce_glue {cq_list(cq_s(x_) for x_ in known_strs)} {args_t} {split_t} "
                           f"{cq_list(cq_s(x_) for x_ in (outs or []))} {obs_cols_t}")
